@@ -113,6 +113,9 @@ func addMoreIntrinsics(m map[string]intrinsic) {
 	// --- encoding/json on strings (C13/C14); everything else about the codec is trusted, not executed ---
 	m["encoding/json.Marshal"] = func(e *Exec, fn *ssa.Function, args []Value) Value {
 		iv := args[0].(*IfaceV)
+		if e.cfg.CLIEnv {
+			return e.jsonMarshalCLI(iv)
+		}
 		if iv.T != nil && isString(iv.T) {
 			sv := iv.V.(*StrV)
 			if sv.C != nil {
